@@ -18,7 +18,8 @@ Model: `Brax/Model/C10.lean` (`contact.get`: geom world pose, `link_idx`, elasti
   link-composed poses is legitimate (`world_shape_eq_move`, `contact_frame_independent`);
   `sphere_sphere_symm`; and they are the true signed distances
   (`plane_sphere_dist_isLeast`, `sphere_sphere_dist_le`, `sphere_sphere_disjoint_iff`,
-  `closestOnSeg_optimal`, `sphere_capsule_dist_le`, `plane_capsule_dist_le`, `*_gap`).
+  `closestOnSeg_optimal`, `sphere_capsule_dist_le`, `plane_capsule_dist_le`,
+  `segSegClosest_optimal`, `capsule_capsule_dist_le`, `*_gap`).
 
 That `mjx.collision` returns these closed forms is **not** proved (external library): it enters
 `get_reports_spec` as the hypothesis `hcol` and is sampled by the correspondence check.
@@ -539,6 +540,49 @@ theorem plane_capsule_dist_le (p n c a : V3 ℝ) (h r : ℝ) (s : ℝ) (hs0 : -1
   · apply le_trans (min_le_right _ _); nlinarith
   · apply le_trans (min_le_left _ _); nlinarith
 
+/-- the clamped closest-point parameters lie in `[0,1]`: both points are on their segments -/
+theorem segSegParams_mem (p1 q1 p2 q2 : V3 ℝ) :
+    (0 ≤ (segSegParams p1 q1 p2 q2).1 ∧ (segSegParams p1 q1 p2 q2).1 ≤ 1)
+    ∧ (0 ≤ (segSegParams p1 q1 p2 q2).2 ∧ (segSegParams p1 q1 p2 q2).2 ≤ 1) := by
+  rw [segSegParams_eq_ssp]; exact ssp_mem _ _ _ _ _
+
+/-- **the two reported points are a closest pair of the two segments** (non-degenerate segments) -/
+theorem segSegClosest_optimal (p1 q1 p2 q2 : V3 ℝ) (h1 : p1 ≠ q1) (h2 : p2 ≠ q2) (s t : ℝ)
+    (hs0 : 0 ≤ s) (hs1 : s ≤ 1) (ht0 : 0 ≤ t) (ht1 : t ≤ 1) :
+    norm3 ((segSegClosest p1 q1 p2 q2).1 - (segSegClosest p1 q1 p2 q2).2)
+      ≤ norm3 ((p1 + V3.smul s (q1 - p1)) - (p2 + V3.smul t (q2 - p2))) := by
+  have ha : 0 < V3.dot (q1 - p1) (q1 - p1) := by
+    have := norm3_pos_of_ne h1; rw [← norm3_mul_self]; positivity
+  have he : 0 < V3.dot (q2 - p2) (q2 - p2) := by
+    have := norm3_pos_of_ne h2; rw [← norm3_mul_self]; positivity
+  have key : ∀ s t : ℝ, V3.dot ((p1 + V3.smul s (q1 - p1)) - (p2 + V3.smul t (q2 - p2)))
+        ((p1 + V3.smul s (q1 - p1)) - (p2 + V3.smul t (q2 - p2)))
+      = V3.dot (p1 - p2) (p1 - p2)
+        + F (V3.dot (q1 - p1) (q1 - p1)) (V3.dot (q1 - p1) (q2 - p2)) (V3.dot (q1 - p1) (p1 - p2))
+            (V3.dot (q2 - p2) (q2 - p2)) (V3.dot (q2 - p2) (p1 - p2)) s t := by
+    intro s t; simp only [F, V3.dot, V3.smul, V3.add_def, V3.sub_def]; ring
+  have hopt := ssp_optimal _ _ (V3.dot (q1 - p1) (p1 - p2)) _ (V3.dot (q2 - p2) (p1 - p2)) ha he
+    (dot_sq_le (q1 - p1) (q2 - p2)) (dot_parallel (q1 - p1) (q2 - p2) (p1 - p2)) s t hs0 hs1 ht0 ht1
+  rw [norm3_def, norm3_def]
+  apply Real.sqrt_le_sqrt
+  simp only [segSegClosest]
+  rw [key, key, segSegParams_eq_ssp]
+  linarith
+
+/-- capsule–capsule: the reported distance is the least ball–ball distance over all pairs of
+balls of the two capsules -/
+theorem capsule_capsule_dist_le (c1 a1 : V3 ℝ) (h1 r1 : ℝ) (c2 a2 : V3 ℝ) (h2 r2 : ℝ)
+    (hs1 : c1 - V3.smul h1 a1 ≠ c1 + V3.smul h1 a1) (hs2 : c2 - V3.smul h2 a2 ≠ c2 + V3.smul h2 a2)
+    (s t : ℝ) (hs0 : 0 ≤ s) (hs1' : s ≤ 1) (ht0 : 0 ≤ t) (ht1 : t ≤ 1) :
+    (capsuleCapsule c1 a1 h1 r1 c2 a2 h2 r2).dist
+      ≤ (sphereSphere ((c1 - V3.smul h1 a1) + V3.smul s ((c1 + V3.smul h1 a1) - (c1 - V3.smul h1 a1))) r1
+          ((c2 - V3.smul h2 a2) + V3.smul t ((c2 + V3.smul h2 a2) - (c2 - V3.smul h2 a2))) r2).dist := by
+  have := segSegClosest_optimal _ _ _ _ hs1 hs2 s t hs0 hs1' ht0 ht1
+  simp only [capsuleCapsule, sphereSphere]
+  rw [norm3_sub_comm _ (segSegClosest _ _ _ _).1, norm3_sub_comm
+    ((c2 - V3.smul h2 a2) + V3.smul t ((c2 + V3.smul h2 a2) - (c2 - V3.smul h2 a2)))]
+  linarith
+
 end meaning
 
 
@@ -732,6 +776,21 @@ example : linkOf scEx 0 = -1 ∧ linkOf scEx 1 = 0 ∧ pairElasticity scEx 0 1 =
   refine ⟨linkOf_world scEx (by simp [scEx]) rfl, linkOf_link scEx (b := 0) (by simp [scEx]) rfl, ?_⟩
   rw [elasticity_mean scEx (by simp [scEx]) (by simp [scEx])]
   norm_num [scEx]
+
+/-- crossing perpendicular capsules one unit apart: the closest points are the two centres -/
+example : segSegClosest ((⟨0, 0, 0⟩ : V3 ℝ) - V3.smul 1 ⟨1, 0, 0⟩) (⟨0, 0, 0⟩ + V3.smul 1 ⟨1, 0, 0⟩)
+      (⟨0, 0, 1⟩ - V3.smul 1 ⟨0, 1, 0⟩) (⟨0, 0, 1⟩ + V3.smul 1 ⟨0, 1, 0⟩)
+    = (⟨0, 0, 0⟩, ⟨0, 0, 1⟩) := by
+  have hp : segSegParams ((⟨0, 0, 0⟩ : V3 ℝ) - V3.smul 1 ⟨1, 0, 0⟩) (⟨0, 0, 0⟩ + V3.smul 1 ⟨1, 0, 0⟩)
+      (⟨0, 0, 1⟩ - V3.smul 1 ⟨0, 1, 0⟩) (⟨0, 0, 1⟩ + V3.smul 1 ⟨0, 1, 0⟩) = (1 / 2, 1 / 2) := by
+    simp only [segSegParams, clip_eq]
+    norm_num [V3.dot, V3.smul]
+  simp only [segSegClosest, hp]
+  norm_num [V3.smul]
+
+/-- a non-degenerate capsule segment (hypothesis of `segSegClosest_optimal`, `sphere_capsule_dist_le`) -/
+example : (⟨0, 0, 0⟩ : V3 ℝ) - V3.smul 1 ⟨1, 0, 0⟩ ≠ ⟨0, 0, 0⟩ + V3.smul 1 ⟨1, 0, 0⟩ := by
+  intro h; have := congrArg V3.x h; norm_num [V3.smul] at this
 
 end examples
 
